@@ -23,6 +23,11 @@ class RuntimeFailure(Unsupported):
     code, not a limit of the evaluator)."""
 
 
+#: every run-time failure met while evaluating analysed code (props.run reports them when no
+#: rule turned them into a finding of its own and the run would otherwise end as analysis error)
+RUNTIME_FAILURES = []
+
+
 class BroadcastError(RuntimeFailure):
     """Two arrays of known shape that numpy itself cannot broadcast: the statement raises
     ValueError at run time (a fact about the analysed code, not a limit of the evaluator)."""
@@ -106,6 +111,11 @@ class SArray:
         v = self.entries.get(idx)
         if v is None:
             if self.default is None:
+                if getattr(self, 'from_empty', False):
+                    # allocated by np.empty in the analysed code and never written: the program
+                    # reads whatever the memory holds
+                    raise RuntimeFailure('read of element %s of an np.empty array that was never '
+                                         'written (uninitialised memory)' % (list(idx),))
                 raise Unsupported('read of uninitialised array element %s' % (idx,))
             return self.default
         return v
@@ -483,6 +493,15 @@ class SymEval:
             self.exec_stmt(st, env)
 
     def exec_stmt(self, st, env):
+        try:
+            return self._exec_stmt(st, env)
+        except RuntimeFailure as e:
+            if not hasattr(e, 'where'):
+                e.where = (self.cur, st)        # innermost statement
+                RUNTIME_FAILURES.append(e)
+            raise
+
+    def _exec_stmt(self, st, env):
         self.last_stmt = (self.cur, st)      # innermost statement being executed (diagnostics)
         if isinstance(st, ast.Expr):
             if isinstance(st.value, ast.Constant):
@@ -1270,6 +1289,10 @@ class SymEval:
                 idx = (idx,)
             row, rest = idx[0], idx[1:]
             rk = self.A.key(self.rat(row))
+            for x_, d_ in zip(rest, base.trail):
+                if isinstance(x_, int) and not isinstance(x_, bool) and not -d_ <= x_ < d_:
+                    raise RuntimeFailure('index %d is out of bounds for an axis of size %d of %s'
+                                         % (x_, d_, base.name))
             if len(rest) == len(base.trail):
                 if not all(isinstance(x, int) for x in rest):
                     raise Unsupported('symbolic trailing index')
@@ -1388,6 +1411,10 @@ class SymEval:
                 idx = (idx,)
             row, rest = idx[0], idx[1:]
             rk = self.A.key(self.rat(row))
+            for x_, d_ in zip(rest, base.trail):
+                if isinstance(x_, int) and not isinstance(x_, bool) and not -d_ <= x_ < d_:
+                    raise RuntimeFailure('index %d is out of bounds for an axis of size %d of %s'
+                                         % (x_, d_, base.name))
             if len(rest) == len(base.trail) and all(isinstance(x, int) for x in rest):
                 base.stores[(rk,) + tuple(rest)] = self.rat(v)
                 base.store_log.append((rk, tuple(rest), self.rat(v), node))
@@ -1860,6 +1887,7 @@ class SymEval:
             # (k, n): component axis first, sample axis last ("stacked rows"); .T restores (n, k)
             out = SArray(tuple(dims[:-1]), {}, default, False)
             out.stacked_rows = True
+            out.from_empty = default is None
             return out
         lead_one = False
         if len(dims) >= 2 and (dims[0] == 1 or not isinstance(dims[0], int)):
@@ -1873,4 +1901,5 @@ class SymEval:
             raise Unsupported('symbolic shape %r' % (shape,))
         out = SArray(tuple(dims), {}, default, sample)
         out.lead_one = lead_one
+        out.from_empty = default is None
         return out
